@@ -266,7 +266,7 @@ var c02Profile = &sim.Profile{
 	W: map[string]int{
 		"login": 26, "otp_login": 6, "otp_add": 4, "recover_start": 4, "recover_end": 6, "totp_validate": 14, "sms_validate": 16,
 		"advance": 6, "logout": 2, "visit": 3, "sms_setup": 2, "sms_confirm": 2, "totp_setup": 1, "totp_confirm": 1, "dropsid": 2,
-		"steal": 1, "raw": 2, "admin_unlock": 2, "sms_remove": 1, "totp_remove": 1, "regen": 1,
+		"steal": 1, "raw": 2, "admin_unlock": 2, "sms_remove": 1, "totp_remove": 1, "regen": 1, "faultnext": 3,
 	},
 	Cls: map[string]map[string]int{
 		"login": {"ok": 70, "wrong": 10, "other": 8, "near": 6, "empty": 3, "hash": 3},
